@@ -619,6 +619,8 @@ impl Ctx {
 // generation
 // ---------------------------------------------------------------------------------------------
 const TTLS: [u64; 4] = [1, 5, 60, 1_000_000_000];
+/// clock-move marker: `BOUNDARY + off` (off in -2..=2) = set the clock to `t*1s + ttl + off` for a stored time `t`
+const BOUNDARY: i64 = i64::MAX - 10;
 
 struct CasePlan {
     store_backend: bool,
@@ -626,7 +628,7 @@ struct CasePlan {
     ttl_s: u64,
     quorum: u64,
     start_ns: i64,
-    steps: Vec<(i64, AOp)>, // (clock delta before the op in ns, op)
+    steps: Vec<(i64, AOp)>, // (clock move before the op: delta in ns, or BOUNDARY+off = jump to a stored report's expiry instant + off ns)
 }
 
 fn gen_case(rng: &mut Rng, st: &mut Stats, thorough: bool, fake: bool) -> CasePlan {
@@ -682,7 +684,8 @@ fn gen_case(rng: &mut Rng, st: &mut Stats, thorough: bool, fake: bool) -> CasePl
                 _ => rng.below(1_000_000) as i64,
             }
         } else {
-            match rng.below(22) {
+            match rng.below(25) {
+                22..=24 => BOUNDARY + rng.range(-1, 1),
                 14..=17 => rng.below(1_000_000) as i64,
                 18..=21 => rng.below(300_000_000) as i64,
                 0 | 1 => 0,
@@ -832,7 +835,22 @@ fn run_plan(plan: &CasePlan, fake: bool, st: &mut Stats) -> Ctx {
     );
     cx.push(hdr, "ok".to_string());
     for (delta, op) in plan.steps.iter() {
-        cx.now = cx.now.saturating_add(*delta).max(0);
+        if *delta >= BOUNDARY - 2 {
+            // jump exactly onto (or 1 ns around) the instant at which some stored report expires
+            let snap = cx.be.snapshot();
+            let mut ts: Vec<i64> = snap.failures.values().flat_map(|m| m.values().copied()).collect();
+            ts.sort();
+            ts.dedup();
+            if let Some(t) = ts.get((plan.start_ns as usize) % ts.len().max(1)) {
+                let target = (*t as i128) * NS + (plan.ttl_s as i128) * NS + (*delta - BOUNDARY) as i128;
+                if target > 0 && target < i64::MAX as i128 / 2 {
+                    cx.now = target as i64;
+                    st.count("gen.clock_on_expiry_boundary");
+                }
+            }
+        } else {
+            cx.now = cx.now.saturating_add(*delta).max(0);
+        }
         cx.exec(op, st);
         if cx.panicked || cx.dirty_clock {
             break;
